@@ -21,6 +21,7 @@ type SQuant struct {
 	Forall bool
 	Vars   []QVar
 	Body   Spec
+	Trig   []Spec
 }
 type QVar struct{ Name, Type string }
 type SGo struct {
@@ -71,6 +72,7 @@ type Contract struct {
 	Ghost      []string
 	Terminates bool
 	Bytes      bool // model bulk copies (append/copy of slices) with quantified content axioms
+	Uses       []string // axioms assumed at entry
 	Splits     []Clause // case split: every obligation is discharged once per case; the cases must cover the precondition
 }
 
@@ -116,7 +118,7 @@ var labelRe = regexp.MustCompile(`^\[([A-Za-z0-9_.:\-]+)\]\s*`)
 
 var clauseKW = map[string]bool{"props": true, "requires": true, "ensures": true, "assigns": true, "canary": true,
 	"loop": true, "decreases": true, "nooverflow": true, "assumed": true, "inline": true, "let": true, "panics_ok": true,
-	"params": true, "ghost": true, "terminates": true, "bytes": true, "split": true}
+	"params": true, "ghost": true, "terminates": true, "bytes": true, "split": true, "uses": true}
 
 func fullName(pkgPath, key string) string {
 	if strings.Contains(key, "/") || pkgPath == "" {
@@ -235,6 +237,17 @@ func (cs *ContractSet) parseContractFile(path, pkgPath string) error {
 			}
 			curPred = p
 			continue
+		case "axiom":
+			// axiom name: body   (a definitional axiom about ufuncs; assumed where a contract says `uses name`)
+			if err := flush(); err != nil {
+				return err
+			}
+			i := strings.Index(rest, ":")
+			if i < 0 {
+				return fmt.Errorf("%s:%d: axiom without name", path, ln)
+			}
+			curPred = &Pred{Name: "axiom " + strings.TrimSpace(rest[:i]), PkgPath: pkgPath, File: path, Text: strings.TrimSpace(rest[i+1:])}
+			continue
 		case "ufunc":
 			if err := flush(); err != nil {
 				return err
@@ -324,6 +337,8 @@ func (c *Contract) addClause(kw, text string, line int) error {
 		c.Params = strings.Fields(strings.ReplaceAll(text, ",", " "))
 	case "ghost":
 		c.Ghost = append(c.Ghost, text)
+	case "uses":
+		c.Uses = append(c.Uses, strings.Fields(strings.ReplaceAll(text, ",", " "))...)
 	case "split":
 		cl, err := c.mkClause(text, line)
 		if err != nil {
@@ -511,11 +526,28 @@ func parseSpec(s string) (Spec, error) {
 				}
 				vars = append(vars, QVar{Name: fs[0], Type: strings.Join(fs[1:], " ")})
 			}
-			body, err := parseSpec(s[i+2:])
+			rest := strings.TrimSpace(s[i+2:])
+			var trig []Spec
+			if strings.HasPrefix(rest, "{") {
+				// optional trigger: forall x T :: { f(x), g(x) } body
+				j := strings.Index(rest, "}")
+				if j < 0 {
+					return nil, fmt.Errorf("unterminated trigger")
+				}
+				for _, t := range splitTop(rest[1:j], ',') {
+					ts, err := parseSpec(t)
+					if err != nil {
+						return nil, err
+					}
+					trig = append(trig, ts)
+				}
+				rest = rest[j+1:]
+			}
+			body, err := parseSpec(rest)
 			if err != nil {
 				return nil, err
 			}
-			return &SQuant{Forall: q == "forall", Vars: vars, Body: body}, nil
+			return &SQuant{Forall: q == "forall", Vars: vars, Body: body, Trig: trig}, nil
 		}
 	}
 	if i := findTop(s, "==>"); i >= 0 {
